@@ -133,7 +133,7 @@ func c19Scenarios(thorough bool) (out []*hx.Scenario, bounds []int) {
 		add("model", modelScenario(cfg), 1)
 	}
 	// conc blocks
-	for _, kids := range [][]int{{0, 1}, {0, 3, 4}, {2, 5, 6}, {7, 8}, {1, 9, 10}} {
+	for _, kids := range [][]int{{0, 1}, {0, 3, 4}, {2, 5, 6}, {7, 8}, {1, 9, 10}, {0, 2}, {2, 1, 4}, {2, 3}} {
 		add("conc", concScenario(concCfg{Kids: kids}), 1)
 	}
 	add("conc", concScenario(concCfg{Kids: []int{0, 5}, Two: true}), 1)
